@@ -1,10 +1,11 @@
 (* C16/Properties.v — the property theorems only.  Each is closed by [exact] of a lemma from
    Proofs.v and followed by Print Assumptions.
 
-   Dispatch rule: zlb_recv = false is what /repo HEAD implements since 96f9f16 (a ZLB only acknowledges);
-   zlb_recv = true is the rule before that fix (a ZLB went through Recv), kept for the refuted witness.
-   Open findings (KNOWN_FINDINGS.txt) that the theorems presuppose repaired: the peer's advertised window is
-   applied at establishment (peer-rws-ignored), and channel operations are atomic (race-channel-goroutines). *)
+   Dispatch rule: zlb_recv = false is what /repo HEAD implements (a ZLB only acknowledges, since 96f9f16);
+   zlb_recv = true is the rule before that fix, kept only for the historical refuted witness.
+   All five C16 findings are fixed in /repo (96f9f16 3558639 63cd1b1 e6d010e e462f04).
+   Events carry the send-callback faults of the operation: [fj] (which write of a driveSend fails) and
+   [drops] (which writes of a Tick fail); theorems quantify over all of them unless stated. *)
 From OV Require Import Common.Base C16.Model C16.Proofs.
 Open Scope Z_scope.
 
@@ -28,7 +29,8 @@ Print Assumptions C16_seq_less_window.
    execution [evs] made of: submissions on either side; delivery to either side of ANY packet its peer
    ever passed to the send callback, any number of times, in any order, or never (drop / duplicate /
    delay / reorder); Ticks at arbitrary times (including retransmissions and the dead callback);
-   window changes — as long as fewer than 2^15 messages were submitted per direction:
+   window changes; any pattern of failing send-callback writes — as long as fewer than 2^15 messages were
+   submitted per direction:
      - the messages handed to B's protocol machine are a prefix of A's submissions, and vice versa
        (nothing invented, nothing duplicated, nothing out of order, nothing skipped);
      - every message a side removed from its retransmission queue because of an acknowledgement
@@ -55,7 +57,7 @@ Example C16_exactly_once_nonvacuous :
 Proof. exact wrap_run_ok. Qed.
 Print Assumptions C16_exactly_once_nonvacuous.
 
-(* THE RULE BEFORE FIX 96f9f16 (ZLB through Recv) VIOLATES IT: in this 8-event honest execution B's only
+(* HISTORICAL: THE RULE BEFORE FIX 96f9f16 (ZLB through Recv) VIOLATED IT: in this 8-event honest execution B's only
    message (200) is removed from B's queue as acknowledged, B is not dead, and A's protocol machine
    never received it. *)
 Theorem C16_exactly_once_refuted :
@@ -108,11 +110,14 @@ Theorem C16_dead_iff :
 Proof. exact tick_dead_iff. Qed.
 Print Assumptions C16_dead_iff.
 
-(* ACKNOWLEDGEMENTS ARE OWED UNTIL SENT.  For both dispatch rules and every execution: whenever an
+(* ACKNOWLEDGEMENTS ARE OWED UNTIL SENT.  For both dispatch rules and every execution in which the writes
+   issued by Tick succeed (Tick ignores write errors and clears zlbDeadline, so a ZLB whose write fails is
+   forgotten until the peer retransmits; failing writes of Send / the ACK path are allowed): whenever an
    endpoint's Nr differs from the Nr in the last packet it sent (it has accepted something the peer
    has not been told about), its ZLB timer is armed ... *)
 Theorem C16_ack_owed :
   forall z ai am ar az aw bi bm br bz bw oa ob evs,
+  forallb tick_faultless evs = true ->
   let s := run z (init_sys (ai, am, ar, az, aw) (bi, bm, br, bz, bw) oa ob) evs in
   ack_ok (u16 ob) (s_a s) /\ ack_ok (u16 oa) (s_b s).
 Proof. exact ack_owed. Qed.
@@ -130,8 +135,8 @@ Print Assumptions C16_tick_sends_owed_ack.
 (* every real (non-ZLB) message that reaches the channel — accepted, duplicate or out of window —
    arms the ZLB timer zlbDelay from now, under both dispatch rules *)
 Theorem C16_data_arms_ack :
-  forall z f c p b now c' o h,
-  k_body p = Some b -> dispatch z f c p now = (c', o, h) -> c_zlb c' = Some (now + f_zlb f).
+  forall z f c p b now fj c' o e h,
+  k_body p = Some b -> dispatch z f c p now fj = (c', o, e, h) -> c_zlb c' = Some (now + f_zlb f).
 Proof. exact data_arms_ack. Qed.
 Print Assumptions C16_data_arms_ack.
 
@@ -213,7 +218,8 @@ Example C16_window_reached :
 Proof. exact window_reached. Qed.
 Print Assumptions C16_window_reached.
 
-(* DELIVERED, STILL QUEUED, OR DEAD.  For every execution (HEAD's dispatch rule, no forged packets, < 2^15
+(* DELIVERED, STILL QUEUED, OR DEAD.  For every execution and EVERY pattern of failing send-callback writes
+   (HEAD's dispatch rule, no forged packets, < 2^15
    submissions per direction), every side x and every submission index i of x: message i was handed to the
    peer's protocol machine, or it is still among the last |queue| submissions of x (queued / in flight, with
    attempts <= MaxRetries by C16_window), or x has fired its dead callback.  Nothing leaves a queue silently. *)
@@ -246,10 +252,10 @@ Print Assumptions C16_quiescent_all_delivered.
    Proofs.run_inv) with S not dead: if ANY ONE transmission of the message at the head of S's queue reaches R,
    that message has been handed to R's machine (now or before). *)
 Theorem C16_head_delivery_progress :
-  forall o S R p r pk b now R' ob,
+  forall o S R p r pk b now fj R' ob,
   dir_inv o S R -> Z.of_nat (length (e_sub S)) < 32768 -> e_dead S = 0%nat ->
   c_q (e_ch S) = p :: r -> k_body pk = Some b -> k_ns pk = p_ns p ->
-  ep_deliver false R pk now = (R', ob) ->
+  ep_deliver false R pk now fj = (R', ob) ->
   (length (e_sub S) - length (c_q (e_ch S)) < length (e_del R'))%nat.
 Proof. exact head_delivery_progress. Qed.
 Print Assumptions C16_head_delivery_progress.
@@ -260,12 +266,53 @@ Print Assumptions C16_head_delivery_progress.
    dichotomy under the explicit fair-loss assumption "of the <= MaxRetries transmissions of the head and the
    acknowledgements they trigger, one of each gets through, or none does": delivered and dequeued, or dead. *)
 Theorem C16_head_ack_progress :
-  forall o S R p r pk now S' ob,
+  forall o S R p r pk now fj S' ob,
   dir_inv o S R -> Z.of_nat (length (e_sub S)) < 32768 ->
   c_q (e_ch S) = p :: r -> 0 < p_att p ->
   (length (e_sub S) - length (c_q (e_ch S)) < length (e_del R))%nat ->
   k_nr pk = c_nr (e_ch R) ->
-  ep_deliver false S pk now = (S', ob) ->
+  ep_deliver false S pk now fj = (S', ob) ->
   (length (c_q (e_ch S')) < length (c_q (e_ch S)))%nat.
 Proof. exact head_ack_progress. Qed.
 Print Assumptions C16_head_ack_progress.
+
+(* NO ACCEPTED MESSAGE IS EVER STRANDED.  For both dispatch rules, every execution (forged packets included)
+   and EVERY pattern of send-callback failures — first transmission from Send or from inside the ACK path
+   (where the error is swallowed), retransmissions, ZLBs: a non-empty queue always has its head in flight
+   (attempts >= 1), the in-flight messages are a prefix of the queue, and cwnd >= 1.  So a message that Send
+   accepted can never sit at attempts = 0 with nothing in flight ahead of it, out of reach of Tick: the head
+   is retransmitted and, if never acknowledged, C16_dead_after_max fires the dead callback (Tick's state
+   does not depend on write errors).  With C16_delivered_queued_or_dead: delivered, or queued behind a head
+   that Tick is working on, or dead — for every send-fault pattern. *)
+Theorem C16_no_stranded_message :
+  forall z ai am ar az aw bi bm br bz bw oa ob evs,
+  1 <= dflt aw 4 -> 1 <= dflt bw 4 ->
+  let s := run z (init_sys (ai, am, ar, az, aw) (bi, bm, br, bz, bw) oa ob) evs in
+  forall x, head_live (c_q (e_ch (ep s x))) /\ flight_sorted (c_q (e_ch (ep s x))) = true /\
+            1 <= c_cwnd (e_ch (ep s x)).
+Proof. exact no_stranded_message. Qed.
+Print Assumptions C16_no_stranded_message.
+
+(* THE RUNNER'S TIMER (runner.go loop, runner_next) NEVER PARKS: after every Tick another one is scheduled,
+   500 ms later when the channel reported nothing pending (so a ZLB deadline armed by a Recv in between —
+   which transmits nothing — is found within 500 ms), otherwise at the reported time but not sooner than 50 ms. *)
+Theorem C16_runner_never_parks :
+  forall ret now,
+  now < runner_next ret now /\
+  match ret with
+  | None => runner_next ret now = now + 500
+  | Some t => runner_next ret now = Z.max t (now + 50)
+  end.
+Proof. exact runner_next_bounds. Qed.
+Print Assumptions C16_runner_never_parks.
+
+(* ... and it reaches every armed ZLB deadline: a Tick at t1 < d leaves the timer armed for d, reports a time
+   <= d, and the next Tick is at t2 with t1 + 50 <= t2 <= max d (t1 + 50).  Iterating, some Tick happens in
+   [d, d + 50] and sends the acknowledgement (C16_tick_sends_owed_ack). *)
+Theorem C16_runner_reaches_zlb :
+  forall f c t1 d c' o ret,
+  c_zlb c = Some d -> t1 < d -> tick f c t1 = (c', o, false, ret) ->
+  let t2 := runner_next ret t1 in
+  t1 + 50 <= t2 <= Z.max d (t1 + 50) /\ c_zlb c' = Some d.
+Proof. exact runner_reaches_zlb. Qed.
+Print Assumptions C16_runner_reaches_zlb.
